@@ -257,6 +257,25 @@ pub fn run(tier: Tier) -> i32 {
                                             // "rejected as a whole": the drop costs the receiver nothing else. The same packet on a
                                             // receiver where a train is pending under the SAME fragment id: every storage buffer
                                             // is still there afterwards (free, or attached to a reassembly)
+                                            // ... and the NEXT packet of the same sender (same label, one optional extension, so
+                                            // every receiver can decode it) is either refused or delivered under its own label,
+                                            // never under the label the receiver remembered from before the dropped packet
+                                            if tail.is_empty() && l.is_addr() && prior.receiver_last(l).is_some() {
+                                                let mut enc2 = enc.clone();
+                                                let mut nb = [0u8; 64];
+                                                let o2 = do_encap_ext(&mut enc2, &[0x77], 0, 0x0800, l, &mut nb, &[(0x0101, vec![])]);
+                                                if let EncOut::Completed(n2) = o2 {
+                                                    let d2 = do_decap(&mut rx, &nb[..n2.min(64)]);
+                                                    acc.transitions += 1;
+                                                    acc.calls += 2;
+                                                    acc.compared += 1;
+                                                    if let DecapOut::Completed { meta, .. } = &d2 {
+                                                        if meta.label != l {
+                                                            rep.violation("C13|unknown-mandatory|next-packet-under-another-label", rank, || (format!("{}: receiver {} drops the packet; the sender's next packet encap_ext(1-byte pdu, label {}, extension 0x0101) -> {:?} ({}) is delivered under label {}", desc, mname, l.short(), o2, hex(&nb[..n2.min(64)]), meta.label.short()), wit()));
+                                                        }
+                                                    }
+                                                }
+                                            }
                                             if tail.is_empty() {
                                                 let mut rxp = RxS::new(2, st, &[st]);
                                                 rxp.mem.set_ctx(CtxS { label: L3B, pt: 0x86DD, frag_id: 6, total_len: 40, pdu_len: 1, from_reuse: false, exts: vec![] }, vec![0u8; st]);
